@@ -29,8 +29,11 @@
     offset, TOTAL length); two different fragments with the same offset and different
     lengths (overlapping fragmentations, "overlapping allowed") are the same identity,
     the later one is dropped as already seen, and the octets only it carried never
-    arrive.  [C06_complete_once_partial] adds exactly the hypothesis that excludes this
-    (no two distinct fragments of the set share an offset). *)
+    arrive (recorded in known_findings.json; witness harness/corpus/C06_same_offset.json).
+    [C06_complete_once_partial] adds exactly the hypothesis that excludes this: no two
+    distinct fragments of the cover [fs] -- which are exactly the fragments of [k] in the
+    history -- have the same offset
+      forall f g, In f fs -> In g fs -> f_off f = f_off g -> f = g. *)
 From Coq Require Import List NArith.
 From DTN Require Import Lib.Bytes Lib.Ivl Model.BpReasm Proofs.BpReasmProofs.
 Import ListNotations.
